@@ -84,3 +84,7 @@ pub proof fn lemma_cog_bound(w: Seq<T>)
     assert(q >= -n) by(nonlinear_arith) requires q * s == -ws, ws <= n * s, s > 0real;
     lemma_rdiv_unique((n + 1real) / 2real, n + 1real, 2real);
 }
+// ---------- Drawdown never decreases (and stays in [0,1) by the invariant [R]) ----------
+pub proof fn lemma_drawdown_monotone(o: DrawdownOwn, y: T)
+    ensures drawdown_own_step(o, y).mdd.v() >= o.mdd.v()
+{}
